@@ -4,7 +4,7 @@ C10 — cleaning is a deterministic, order-preserving function of content and co
 Tie: every case (fresh Cleaner + one clean_content call, or one ContentProvider.write) is executed by the
 real implementation in child interpreters under PYTHONHASHSEED = 0..k-1 (16 quick / 256 thorough, cases
 batched per child) and every child's output must equal the single output of IV.CleanState.cleanContent /
-providerWrite (Drivers/C09.lean, shared with C09).
+providerWrite (Drivers/C10.lean; the protocol handler IV/Model/CleanProto.lean is shared with C09).
 Oracle (implementation only): two seeds that disagree on a case; an output line whose unique marker is
 missing, duplicated or out of order; an all-blank result returned or stored.
 """
@@ -236,7 +236,7 @@ def load_corpus():
 def run(chk):
     rng = chk.rng
     quick = chk.tier == "quick"
-    n_cases = 500 if quick else 4000
+    n_cases = 1200 if quick else 4000
     seeds = list(range(16 if quick else 256))
     chk.rule = ("one fresh Cleaner + one clean_content call (80%) or one DatasourceProvider.write (20%) per case; 0-8 lines, each "
                 "starting with a unique marker @i@, built from pieces where obfuscators compete (keyword inside a host name, address "
@@ -266,7 +266,7 @@ def run(chk):
     lines = list(setup)
     for c in cases:
         lines += model_lines(c)
-    ans = run_driver("C09", lines)
+    ans = run_driver("C10", lines)
     base = len(setup)
     model = [model_result(c, ans[base + 3 * i + 2]) for i, c in enumerate(cases)]
 
@@ -322,7 +322,7 @@ def replay(data):
     case = dict(case)
     case["id"] = 0
     res = run_seeds([case], seeds, par=2)
-    ans = run_driver("C09", c09.setup_lines() + model_lines(case))
+    ans = run_driver("C10", c09.setup_lines() + model_lines(case))
     model = model_result(case, ans[-1])
     bad = False
     for s in seeds:
